@@ -47,7 +47,11 @@ def oracle(ck, tier, deep):
     sizes = [3, 4, 7, 16, 40, 64] if not deep else [3, 4, 5, 7, 16, 40, 64, 101, 150, 200]
     nrows = 3 if not deep else 12
     # ---- exact class: daun, every degree, both orders
-    for degree in (0, 1, 2, 3):
+    import os
+    import tempfile
+    daun_dir = tempfile.mkdtemp(prefix="c03_", dir=os.environ.get("VERIF_SCRATCH"))
+    for degree in (0, 1, 2, 3, 0, 2, 1, 3):          # second pass: the directory now holds files, memory holds another degree
+
         for n in sizes:
             if degree == 3 and n < 4:
                 continue
@@ -56,10 +60,14 @@ def oracle(ck, tier, deep):
             X[0] = 0
             X[0, int(rng.integers(0, n))] = 1.0                      # a unit vector
             X[-1] = (-1.0) ** np.arange(n)                            # alternating signs
-            f = lambda Z, d: quiet(abel.daun.daun_transform, Z, degree=degree, direction=d, dr=dr)
-            ck.count(("S.daun", degree, n, dr), suite="S.exact")
+            # the unregularised inverse can be spelt reg=None/0 or as a tuple with strength 0; the basis may come from memory,
+            # be generated, or be loaded from a directory that a previous degree / size has already filled
+            reg = [None, 0, ("diff", 0), ("L2", 0), ("L2c", 0), 0.0][int(rng.integers(0, 6))]
+            bdir = [None, None, daun_dir][int(rng.integers(0, 3))]
+            f = lambda Z, d: quiet(abel.daun.daun_transform, Z, degree=degree, direction=d, dr=dr, reg=reg, basis_dir=bdir)
+            ck.count(("S.daun", degree, n, dr, str(reg), bdir is None), suite="S.exact")
             sig = dict(site="daun", degree=degree)
-            rep = dict(degree=degree, n=n, dr=dr, X=X.tolist())
+            rep = dict(degree=degree, n=n, dr=dr, reg=str(reg), basis_dir=bdir is not None, X=X.tolist())
             try:
                 M = quiet(abel.daun.daun_transform, np.eye(n), degree=degree, direction="forward")
                 cond = np.linalg.cond(M)
@@ -126,7 +134,17 @@ def oracle(ck, tier, deep):
                 W = (rr > R / 3).astype(float)
                 quiet(abel.rbasex.rbasex_transform, img, order=order, odd=odd, weights=W)
                 Ai2 = [a.copy() for a in quiet(abel.rbasex.get_bs_cached, R, order, odd, "inverse")]
+                quiet(abel.rbasex.rbasex_transform, img, order=order, odd=odd, weights=W, direction="forward")
+                quiet(abel.rbasex.rbasex_transform, img, order=order, odd=odd, weights=W, reg=("L2", 1.0))
+                Af2 = [a.copy() for a in quiet(abel.rbasex.get_bs_cached, R, order, odd, "forward")]
+                Ai3 = [a.copy() for a in quiet(abel.rbasex.get_bs_cached, R, order, odd, "inverse")]
                 ck.count(("S.rbasex-after-mask", order, odd, R), suite="S.exact")
+                for k, (a, a2, b, b3) in enumerate(zip(Af, Af2, Ai, Ai3)):
+                    if np.abs(a - a2).max() > 0 or np.abs(b - b3).max() > 0:
+                        ck.violation(dict(sig, clause="operator-product-after-masked-call"), dict(rep, term=k),
+                                     f"after forward / regularised transforms with masking weights the radial operators of term {k} changed "
+                                     f"(forward by {np.abs(a - a2).max():.3g}, inverse by {np.abs(b - b3).max():.3g})")
+                        break
                 for k, (b, b2) in enumerate(zip(Ai, Ai2)):
                     if b.shape != b2.shape or np.abs(b - b2).max() > 0:
                         ck.violation(dict(sig, clause="operator-product-after-masked-call"), dict(rep, term=k),
@@ -152,7 +170,8 @@ def oracle(ck, tier, deep):
                     ck.count(("S.approx", name, pn, n, order), suite="S.approx")
                     a, b = ("forward", "inverse") if order == "inverse∘forward" else ("inverse", "forward")
                     try:
-                        y = quiet(f, quiet(f, p, direction=a, **opts), direction=b, **opts)
+                        drv = [1.0, 0.5, 2.0][(n + len(pn) + len(name)) % 3]          # the round trip holds for every pixel size
+                        y = quiet(f, quiet(f, p, direction=a, dr=drv, **opts), direction=b, dr=drv, **opts)
                     except Exception as e:
                         ck.violation(dict(site=name, clause="exception"), dict(n=n, profile=pn), f"{type(e).__name__}: {e}")
                         continue
